@@ -315,49 +315,83 @@ def c01_4(c: Ctx) -> None:
     u, sites = exec_handler_sites(c)
     c.floor(len(sites), 2, 'execute_handler call sites in _execute_handlers (serial + parallel)')
     g = c.cfg(u)
-    H = c.an.fm.h
     for call in sites:
-        loop = q.enclosing(call, (ast.For, ast.AsyncFor))
-        if loop is None:
-            c.fail(u, f'execute_handler call outside a loop: {q.stmt_text(q.stmt_of(call))}', 'execute_handler is not called once per applicable handler', node=call)
+        src = check_handler_site(c, u, g, call)
+        if src is None:
             continue
-        check_handler_loop(c, u, g, loop, call, 'execute_handler')
-        awaited = isinstance(parent_of(call), ast.Await)
-        if not awaited:
-            # tasks collected in a dict, awaited in a second loop over the same dict
-            st = q.stmt_of(call)
-            if not (isinstance(st, ast.Assign) and isinstance(st.targets[0], ast.Name)):
-                c.fail(u, f'task for execute_handler not bound: {q.stmt_text(st)}', 'handler task is created but never awaited', node=st)
-                continue
-            tname = st.targets[0].id
-            stores = [n for n in ast.walk(loop) if isinstance(n, ast.Assign) and isinstance(n.targets[0], ast.Subscript) and tname in {x.id for x in ast.walk(n.value) if isinstance(x, ast.Name)}]
-            if not stores:
-                c.fail(u, f'task {tname} is not stored for awaiting', 'handler tasks are not collected', node=st)
-                continue
-            dname = U(stores[0].targets[0].value)  # type: ignore[union-attr]
-            loops2 = [n for n in own_nodes_list(u) if isinstance(n, ast.For) and n is not loop and dname in U(n.iter)]
-            if len(loops2) != 1:
-                c.fail(u, f'no unique loop awaiting the tasks in {dname}', 'handler tasks are not all awaited', node=st)
-                continue
-            aw = [x for x in ast.walk(loops2[0]) if isinstance(x, ast.Await)]
-            if len(aw) != 1:
-                c.fail(u, f'await loop over {dname} has {len(aw)} awaits', 'handler tasks are not awaited exactly once each', node=loops2[0])
-                continue
-            check_handler_loop(c, u, g, loops2[0], aw[0], 'await task')
-    # iteration sources
-    params = u.params()
-    for call in sites:
-        loop = q.enclosing(call, (ast.For, ast.AsyncFor))
-        if loop is None:
-            continue
-        src = U(loop.iter)
+        params = u.params()
         base = src.split('.items()')[0].split('.values()')[0]
         defs = [n for n in own_nodes_list(u) if isinstance(n, (ast.Assign, ast.AnnAssign)) and any(isinstance(t, ast.Name) and t.id == base for t in (n.targets if isinstance(n, ast.Assign) else [n.target]))]
         okflow = base in params or any(('_get_applicable_handlers' in U(d.value) or any(p in U(d.value) for p in params[2:3])) for d in defs if d.value is not None)
-        if okflow and src.endswith('.items()'):
-            c.ok(where(u, loop), f'loop iterates {src} (all applicable handlers)')
+        if okflow and (src.endswith('.items()') or src.endswith('.values()')):
+            c.ok(where(u, call), f'handlers are taken from {src} (all applicable handlers)')
         else:
-            c.fail(u, f'handler loop iterates {src}', 'the handler loop does not iterate the full applicable-handler mapping', node=loop)
+            c.fail(u, f'handler loop iterates {src}', 'the handler loop does not iterate the full applicable-handler mapping', node=call)
+
+
+def check_handler_site(c: Ctx, u: Unit, g, call: ast.Call) -> str | None:
+    """One execute_handler call site of _execute_handlers: exactly one call per applicable handler, every handler awaited, errors of one
+    handler never prevent the others from being awaited.  Returns the text of the iterated source (None if already reported)."""
+    loop = q.enclosing(call, (ast.For, ast.AsyncFor))
+    comp = next((a for a in q.ancestors_of(call) if isinstance(a, (ast.ListComp, ast.GeneratorExp, ast.SetComp, ast.DictComp))), None)
+    awaited = isinstance(parent_of(call), ast.Await)
+    if awaited:
+        if loop is None:
+            c.fail(u, f'execute_handler call outside a loop: {q.stmt_text(q.stmt_of(call))}', 'execute_handler is not called once per applicable handler', node=call)
+            return None
+        check_handler_loop(c, u, g, loop, call, 'execute_handler')
+        return U(loop.iter)
+    st = q.stmt_of(call)
+    if comp is not None:
+        if len(comp.generators) != 1 or comp.generators[0].ifs:
+            c.fail(u, f'handler tasks created by a filtered / nested comprehension: {U(comp)[:70]}', 'not every applicable handler gets a task', node=call)
+            return None
+        if not (isinstance(st, (ast.Assign, ast.AnnAssign)) and isinstance((st.targets[0] if isinstance(st, ast.Assign) else st.target), ast.Name)):
+            c.fail(u, f'handler tasks not bound: {q.stmt_text(st, 70)}', 'handler tasks are created but never awaited', node=st)
+            return None
+        container = (st.targets[0] if isinstance(st, ast.Assign) else st.target).id
+        src = U(comp.generators[0].iter)
+        c.ok(where(u, call), f'one execute_handler task per element of {src} (collected in `{container}`)')
+    elif loop is not None:
+        check_handler_loop(c, u, g, loop, call, 'execute_handler')
+        if not (isinstance(st, ast.Assign) and isinstance(st.targets[0], ast.Name)):
+            c.fail(u, f'task for execute_handler not bound: {q.stmt_text(st)}', 'handler task is created but never awaited', node=st)
+            return None
+        tname = st.targets[0].id
+        stores = [n for n in ast.walk(loop) if isinstance(n, ast.Assign) and isinstance(n.targets[0], ast.Subscript) and tname in {x.id for x in ast.walk(n.value) if isinstance(x, ast.Name)}]
+        appends = [n for n in ast.walk(loop) if isinstance(n, ast.Call) and call_name(n) == 'append' and n.args and tname in {x.id for x in ast.walk(n.args[0]) if isinstance(x, ast.Name)}]
+        if stores:
+            container = U(stores[0].targets[0].value)  # type: ignore[union-attr]
+        elif appends:
+            container = U(appends[0].func.value)  # type: ignore[union-attr]
+        else:
+            c.fail(u, f'task {tname} is not stored for awaiting', 'handler tasks are not collected', node=st)
+            return None
+        src = U(loop.iter)
+    else:
+        c.fail(u, f'execute_handler task created outside a loop: {q.stmt_text(st)}', 'execute_handler is not called once per applicable handler', node=call)
+        return None
+    # every collected task is awaited, and one handler's error does not stop the waiting for the others
+    gathers = [n for n in own_nodes_list(u) if isinstance(n, ast.Await) and isinstance(n.value, ast.Call) and call_name(n.value) == 'gather'
+               and any(isinstance(a, ast.Starred) and container in U(a.value) for a in n.value.args)]
+    loops2 = [n for n in own_nodes_list(u) if isinstance(n, ast.For) and n is not loop and container in U(n.iter)]
+    if gathers:
+        for gth in gathers:
+            rex = q.kw(gth.value, 'return_exceptions')
+            if isinstance(rex, ast.Constant) and rex.value is True:
+                c.ok(where(u, gth), 'asyncio.gather(*tasks, return_exceptions=True) waits for every handler task and contains their errors')
+            else:
+                c.fail(u, f'handler tasks awaited with gather() without return_exceptions=True: {U(gth)[:70]}',
+                       'gather returns at the first handler error while sibling handlers are still running: process_event finishes (and releases the lock) early, later events overlap them, and the event is never re-checked for completion', node=gth)
+    elif len(loops2) == 1:
+        aw = [x for x in ast.walk(loops2[0]) if isinstance(x, ast.Await)]
+        if len(aw) != 1:
+            c.fail(u, f'await loop over {container} has {len(aw)} awaits', 'handler tasks are not awaited exactly once each', node=loops2[0])
+        else:
+            check_handler_loop(c, u, g, loops2[0], aw[0], 'await task')
+    else:
+        c.fail(u, f'no unique construct awaiting the tasks in {container}', 'handler tasks are not all awaited', node=st)
+    return src
 
 
 def check_handler_loop(c: Ctx, u: Unit, g, loop: ast.For, inner: ast.AST, what: str) -> None:
